@@ -260,6 +260,26 @@ func ruleC14(p *Prog, r *Result) {
 // ruleC07Encode: $encode validates the evaluated subtree before encoding it.
 func ruleC07Encode(rule string) func(p *Prog, r *Result) {
 	return func(p *Prog, r *Result) {
+		// who may call the encoders: only the validating entry point and the encoder family itself
+		allowed := map[string]map[string]bool{
+			"bkl.process2EncodeAny":    {"bkl.process2Encode": true, "bkl.process2EncodeAny": true, "bkl.process2EncodeString": true},
+			"bkl.process2EncodeString": {"bkl.process2EncodeAny": true},
+		}
+		for callee, who := range allowed {
+			fn := p.Func(callee)
+			n := 0
+			for _, e := range p.CG().In[fn] {
+				caller := p.FuncName(topFunc(e.Caller))
+				n++
+				if who[caller] {
+					continue
+				}
+				r.Fail(rule, caller+" / calls "+callee+" directly", p.InstrPos(e.Site), "an encoder is reached without passing process2Encode, which is where the evaluated input is validated: an unresolved $required or stray directive inside the encoded subtree disappears into the encoded text")
+			}
+			if n > 0 {
+				r.OK(rule, callee+" / callers", p.Pos(fn.Pos()), "only reachable through the validating entry point process2Encode (and the encoder family itself)")
+			}
+		}
 		pr := newPSRule(p, r, rule, "bkl.process2Encode", PSOpts{NoInline: map[string]bool{"bkl.process2": true, "bkl.process2EncodeAny": true, "bkl.validate": true}})
 		pr.all("$encode: the evaluated input is validated before it is encoded", selectPaths(pr.paths, func(pa *Path) bool { return hasCallEffect(pa, "bkl.process2EncodeAny") }),
 			"validate(process2(obj)) == nil precedes process2EncodeAny on the same value", func(pa *Path) (bool, string) {
